@@ -48,6 +48,16 @@ Theorem C10_order : forall (parse : str -> config) lay c, load_config parse lay 
 Proof. exact load_order. Qed.
 Print Assumptions C10_order.
 
+(* ---- later layers override earlier ones under last-match-wins: for every family and every matcher, the deciding
+   rule of the loaded config is the env layer's last match if it has one, else the project layer's, else the user's *)
+Theorem C10_override : forall (parse : str -> config) lay c, load_config parse lay = Ok c ->
+  exists u p e, effective lay = Ok (u, p, e) /\
+    forall f m, last_match m (fam f c) =
+      or_else (last_match m (layer_rules parse f e s_env))
+        (or_else (last_match m (layer_rules parse f p s_project)) (last_match m (layer_rules parse f u s_user))).
+Proof. exact load_override. Qed.
+Print Assumptions C10_override.
+
 (* ---- one concatenated file ----------------------------------------------------------------------------------- *)
 (* (a) no assumption on parse_config: observable(load_config) = merge-fold of the parsed texts of the present layers *)
 Theorem C10_concat_fold : forall (parse : str -> config) lay,
